@@ -59,7 +59,7 @@ def run_harness(h, tier, log_dir, mem_gb, timeout_s):
     spec = CRATES[crate]
     name = h["name"]
     short = name.split("::")[-1]
-    tdir = os.path.join(SCRATCH, "t", f"{crate}-{short}")
+    tdir = os.path.join(SCRATCH, "t", f"{crate}-{short}-{os.getpid()}")
     os.makedirs(log_dir, exist_ok=True)
     log = os.path.join(log_dir, f"{short}.log")
     env = base_env()
